@@ -40,7 +40,7 @@ META = {
                  "code, TLC trace validation; Go race detector in thorough",
 }
 
-GATES = ["lb.track.mid", "lb.untrack.mid", "c30.hold"]
+GATES = ["lb.track.mid", "lb.untrack.mid", "lb.untrack.zero", "c30.hold"]
 
 
 def s(cps):
@@ -50,6 +50,22 @@ def s(cps):
 def canon(b):
     b = b.lower()
     return b if ":" in b else b + ":25565"
+
+
+def open_during_zero_window(h):
+    """worker v's close reaches zero (3rd step), worker w opens (2nd step) before v removes the counter
+    (4th step), and the reader chooses after that and before w closes (sampling aid only)"""
+    pos = {}
+    for i, t in enumerate(h):
+        pos.setdefault(t, []).append(i)
+    ws = [t for t in pos if t != "o"]
+    for v in ws:
+        for w in ws:
+            if v == w or len(pos[v]) < 4 or len(pos[w]) < 3:
+                continue
+            if pos[v][2] < pos[w][1] < pos[v][3] and any(pos[v][3] < o < pos[w][2] for o in pos.get("o", [])):
+                return True
+    return False
 
 
 def classify(run, bad):
@@ -82,6 +98,8 @@ def classify(run, bad):
         return kind + ":count"
     if ev == "obs":
         return kind + ":count-read"
+    if ev == "pick":
+        return "least-connections:open-connection-not-counted"
     if ev == "lost":
         return kind + ":connection-not-forwarded"
     return kind + ":" + str(ev)
@@ -97,11 +115,20 @@ def run(ctx):
     ctx.log("drop-first variant violates %s (non-vacuity ok)" % nv.violated)
     r = ctx.tlc("LiteRR")
     mc += r.distinct
-    nv = ctx.tlc("LiteRR", "LiteRR_wrap.cfg", allow_violation=True, count=False)
-    if nv.violated != "RRFair":
-        raise vlib.ToolError("round-robin index wrapped by the shrunken list does not violate RRFair (%s)" % nv.violated)
-    ctx.log("LiteRR.tla: %d states, no accepting backend starved by the rotation; wrapped-index variant "
-            "violates RRFair (non-vacuity ok)" % r.distinct)
+    if not ctx.quick:   # the non-vacuity variants of the two small models run in thorough only (JVM starts)
+        nv = ctx.tlc("LiteRR", "LiteRR_wrap.cfg", allow_violation=True, count=False)
+        if nv.violated != "RRFair":
+            raise vlib.ToolError("round-robin index wrapped by the shrunken list does not violate RRFair (%s)" % nv.violated)
+    ctx.log("LiteRR.tla: %d states, no accepting backend starved by the rotation%s"
+            % (r.distinct, "" if ctx.quick else "; wrapped-index variant violates RRFair (non-vacuity ok)"))
+    r = ctx.tlc("LiteLeast")
+    mc += r.distinct
+    if not ctx.quick:
+        nv = ctx.tlc("LiteLeast", "LiteLeast_nolock.cfg", allow_violation=True, count=False)
+        if nv.violated != "PickOK":
+            raise vlib.ToolError("LiteLeast without the counters' mutex does not violate PickOK (%s)" % nv.violated)
+    ctx.log("LiteLeast.tla: %d states, least-connections never prefers a backend with an open connection to an "
+            "idle one%s" % (r.distinct, "" if ctx.quick else "; mutex-less variant violates PickOK (non-vacuity ok)"))
     r = ctx.tlc("LiteCount")
     mc += r.distinct
     ctx.log("LiteCount.tla: %d states, reads within bounds, zero at the end" % r.distinct)
@@ -124,7 +151,17 @@ def run(ctx):
     cs = cs[:ctx.pick(100, ncs)]
     with open(ctx.path("countsched.json"), "w") as fh:
         json.dump(cs, fh)
-    ctx.log("scenarios: %d; count schedules: %d of %d" % (len(scens), len(cs), ncs))
+    ls = ctx.tlc("LiteLeast", "LiteLeast_sched.cfg", workers=1, count=False).printed_json("SCHED")
+    nls = len(ls)
+    rnd = random.Random(ctx.seed)
+    rnd.shuffle(ls)
+    hot = [x for x in ls if open_during_zero_window(x)]
+    cold = [x for x in ls if not open_during_zero_window(x)]
+    ls = hot[:ctx.pick(25, 600)] + cold[:ctx.pick(55, 1400)]
+    with open(ctx.path("leastsched.json"), "w") as fh:
+        json.dump(ls, fh)
+    ctx.log("scenarios: %d; count schedules: %d of %d; least-connections schedules: %d of %d (%d with an open "
+            "inside a close's zero window)" % (len(scens), len(cs), ncs, len(ls), nls, len(hot)))
 
     p = ctx.harness("./c30", "TestBalance", race=not ctx.quick, timeout=2400, check=False,
                     env={"VERIF_BATCH": ctx.pick(6, 40), "VERIF_STRESS": ctx.pick(30, 300)})
@@ -161,7 +198,8 @@ def run(ctx):
     cov = {
         "states": mc + tstates,
         "samples": st["samples"][:2] + [{"trace_events": len(recs)}],
-        "evaluations": st["attempts"] + st["concurrent_connections"] + st["count_schedules"] + st["api_stress_runs"],
+        "evaluations": st["attempts"] + st["concurrent_connections"] + st["count_schedules"] + st["least_schedules"]
+                       + st["api_stress_runs"],
         "distinct_nontrivial": st["attempts_with_retries"],
         "rule": "connection attempts in which the code tried more than one backend (counted from lb.try events)",
         "scenarios": st["scenarios"],
@@ -177,6 +215,8 @@ def run(ctx):
         "concurrent_connections": st["concurrent_connections"],
         "count_schedules_forced": st["count_schedules"],
         "count_blocked_steps": st["count_blocked_steps"],
+        "least_schedules_forced": st["least_schedules"],
+        "least_picks": {"tracked_backend": st["least_picks_of_tracked_backend"], "idle_backend": st["least_picks_of_idle_backend"]},
         "api_stress_runs": st["api_stress_runs"],
         "trace_events_validated": matched,
         "race_detector": not ctx.quick,
